@@ -39,6 +39,26 @@ pub struct Cell {
     /// a sixth record whose message is an argument-free literal (`info!("...")`: `Arguments::as_str()` is `Some`)
     #[serde(default)]
     pub literal: Option<u8>,
+    /// the builder is told `tty_only` before it is told the target
+    #[serde(default)]
+    pub tty_only_first: bool,
+    /// between the third and the fourth record the encoder refuses one record (append reports the error); the
+    /// records after it must appear as usual
+    #[serde(default)]
+    pub refuse_one: bool,
+}
+
+/// Refuses records whose message is "refuse-me"; everything else goes to the real encoder.
+#[derive(Debug)]
+struct Refusing(PatternEncoder);
+
+impl log4rs::encode::Encode for Refusing {
+    fn encode(&self, w: &mut dyn EncWrite, record: &log::Record) -> anyhow::Result<()> {
+        if record.args().to_string() == "refuse-me" {
+            anyhow::bail!("verif: the encoder refuses this record");
+        }
+        self.0.encode(w, record)
+    }
 }
 
 macro_rules! x16 {
@@ -102,14 +122,20 @@ fn records_of(cell: &Cell) -> Vec<Rec> {
     v
 }
 
+fn target_is_tty(cell: &Cell) -> bool {
+    if cell.target_stderr { cell.stderr_tty } else { cell.stdout_tty }
+}
+
 pub fn child_main(args: &[String]) -> i32 {
     let Some(file) = args.first() else { return 2 };
     let cell: Cell = serde_json::from_str(&std::fs::read_to_string(file).expect("case file")).expect("case json");
-    let app = ConsoleAppender::builder()
-        .target(if cell.target_stderr { Target::Stderr } else { Target::Stdout })
-        .tty_only(cell.tty_only)
-        .encoder(Box::new(PatternEncoder::new(&print(&cell.pat, false))))
-        .build();
+    let target = if cell.target_stderr { Target::Stderr } else { Target::Stdout };
+    let encoder = Box::new(Refusing(PatternEncoder::new(&print(&cell.pat, false))));
+    let app = if cell.tty_only_first {
+        ConsoleAppender::builder().tty_only(cell.tty_only).encoder(encoder).target(target).build()
+    } else {
+        ConsoleAppender::builder().target(target).tty_only(cell.tty_only).encoder(encoder).build()
+    };
     let other = if cell.also_other {
         Some(
             ConsoleAppender::builder()
@@ -121,7 +147,15 @@ pub fn child_main(args: &[String]) -> i32 {
         None
     };
     for _ in 0..cell.repeat.max(1) {
-        for r in records() {
+        for (i, r) in records().into_iter().enumerate() {
+            if cell.refuse_one && i == 3 {
+                let refused = Rec { level: 0, msg: vec!["refuse-me".into()], target: "app::mod".into(), module: None, file: None, line: None, mdc: vec![] };
+                // (an appender that does not write at all - tty_only off a terminal - never reaches the encoder)
+                let r = with_rec(&refused, |rec| app.append(rec));
+                if r.is_ok() && !(cell.tty_only && !target_is_tty(&cell)) {
+                    return 4;
+                }
+            }
             if with_rec(&r, |rec| app.append(rec)).is_err() {
                 return 3;
             }
@@ -542,7 +576,7 @@ fn cell_at(idx: usize, pat: Pat) -> Cell {
     let tg = i % 2;
     i /= 2;
     let to = i % 2;
-    Cell { no_color: v(nc), clicolor: v(cc), clicolor_force: v(cf), stdout_tty: so == 1, stderr_tty: se == 1, target_stderr: tg == 1, tty_only: to == 1, pat, also_other: false, repeat: 1, literal: None }
+    Cell { no_color: v(nc), clicolor: v(cc), clicolor_force: v(cf), stdout_tty: so == 1, stderr_tty: se == 1, target_stderr: tg == 1, tty_only: to == 1, pat, also_other: false, repeat: 1, literal: None, tty_only_first: false, refuse_one: false }
 }
 
 pub const CELLS: usize = 27 * 2 * 2 * 2 * 2;
@@ -678,7 +712,7 @@ pub fn check_shared(tmp: &Path, c: &Shared, obs: &mut Obs) -> CaseResult {
         Node::Fmt { kind: Kind::Highlight(vec![Node::Fmt { kind: Kind::Message, long: false, spec: None }]), long: false, spec: None },
         Node::Fmt { kind: Kind::Newline, long: false, spec: None },
     ];
-    let cell = Cell { no_color: None, clicolor: None, clicolor_force: Some("1".into()), stdout_tty: false, stderr_tty: false, target_stderr: true, tty_only: false, pat, also_other: false, repeat: c.repeat, literal: None };
+    let cell = Cell { no_color: None, clicolor: None, clicolor_force: Some("1".into()), stdout_tty: false, stderr_tty: false, target_stderr: true, tty_only: false, pat, also_other: false, repeat: c.repeat, literal: None, tty_only_first: false, refuse_one: false };
     let file = dir.join("cell.json");
     std::fs::write(&file, serde_json::to_string(&cell).unwrap()).unwrap();
     let mut fds = [0 as libc::c_int; 2];
@@ -745,6 +779,9 @@ pub fn run(run: &Run) {
             let mut cell = cell_at(idx, pat);
             // every second pass: the process owns appenders on both streams
             cell.also_other = pass % 2 == 1;
+            // builder call order and a refused record vary with the cell
+            cell.tty_only_first = (idx / 3 + pass) % 2 == 0;
+            cell.refuse_one = (idx / 7 + pass) % 3 == 0;
             if !run.eval_one("matrix", &cell, &move |c: &Cell, o: &mut Obs| check_cell(&t2, c, o)) {
                 ok = false;
                 break 'outer;
@@ -768,7 +805,7 @@ pub fn run(run: &Run) {
                         if idx % run.worker.1 != run.worker.0 {
                             continue;
                         }
-                        let cell = Cell { no_color: None, clicolor: None, clicolor_force: if k % 2 == 0 { Some("1".into()) } else { None }, stdout_tty: tty && !target_stderr, stderr_tty: tty && target_stderr, target_stderr, tty_only: false, pat: pat.clone(), also_other: false, repeat: 1, literal: Some(k) };
+                        let cell = Cell { no_color: None, clicolor: None, clicolor_force: if k % 2 == 0 { Some("1".into()) } else { None }, stdout_tty: tty && !target_stderr, stderr_tty: tty && target_stderr, target_stderr, tty_only: false, pat: pat.clone(), also_other: false, repeat: 1, literal: Some(k), tty_only_first: k % 2 == 1, refuse_one: false };
                         let t3 = tmp.clone();
                         run.eval_one("literal-args", &cell, &move |c: &Cell, o: &mut Obs| check_cell(&t3, c, o));
                     }
@@ -831,7 +868,7 @@ pub fn replay(part: &str, case: serde_json::Value) -> Option<CaseResult> {
 pub fn meta() -> EvidenceMeta {
     EvidenceMeta {
         level: "exploration",
-        rule: "matrix (exhaustive every run): NO_COLOR, CLICOLOR, CLICOLOR_FORCE each in {unset,\"0\",\"1\"} x stdout in {pty,pipe} x stderr in {pty,pipe} x target x tty_only = 432 child processes, the parent allocates raw-mode ptys with openpty and reads both streams to EOF; per cell a generated pattern (a highlight group around generated structure, width specs around highlights, nested groups) and five records, one per level; oracle: nothing on the non-target stream; nothing on the target if tty_only and the target is not a terminal, else the reference rendering of the five records after stripping escape sequences; escape sequences (each matching ESC [ digits(;digits)* m) present iff colour is enabled, and then exactly one per style request of the pattern, in its place between the text pieces by the statement's cascade (cells with NO_COLOR=\"0\" or CLICOLOR_FORCE=\"0\" accept both readings), last sequence a reset. literal-args (exhaustive, 60 children): a sixth record whose message is an argument-free literal (short, 4 kB after a line break, 9 kB single line, empty, multi-byte) x target x pty/pipe x {m} / {m}{n} / {h({m})}{n}; styles (exhaustive): AnsiWriter<Vec<u8>>::set_style for all 243 styles after a previous style: exactly one well-formed SGR sequence which a harness SGR interpreter maps from any prior state to exactly the requested attributes; random style pairs and write/set_style interleavings (bytes unchanged). non-trivial = a cell where tty-ness and the colour decision disagree or tty_only meets a pipe / NO_COLOR; a style with all three attributes set".into(),
+        rule: "matrix (exhaustive every run): NO_COLOR, CLICOLOR, CLICOLOR_FORCE each in {unset,\"0\",\"1\"} x stdout in {pty,pipe} x stderr in {pty,pipe} x target x tty_only = 432 child processes, the parent allocates raw-mode ptys with openpty and reads both streams to EOF; per cell the builder is told tty_only before or after the target, the encoder may refuse one record in the middle (later records must still appear), a generated pattern (a highlight group around generated structure, width specs around highlights, nested groups) and five records, one per level; oracle: nothing on the non-target stream; nothing on the target if tty_only and the target is not a terminal, else the reference rendering of the five records after stripping escape sequences; escape sequences (each matching ESC [ digits(;digits)* m) present iff colour is enabled, and then exactly one per style request of the pattern, in its place between the text pieces by the statement's cascade (cells with NO_COLOR=\"0\" or CLICOLOR_FORCE=\"0\" accept both readings), last sequence a reset. literal-args (exhaustive, 60 children): a sixth record whose message is an argument-free literal (short, 4 kB after a line break, 9 kB single line, empty, multi-byte) x target x pty/pipe x {m} / {m}{n} / {h({m})}{n}; styles (exhaustive): AnsiWriter<Vec<u8>>::set_style for all 243 styles after a previous style: exactly one well-formed SGR sequence which a harness SGR interpreter maps from any prior state to exactly the requested attributes; random style pairs and write/set_style interleavings (bytes unchanged). non-trivial = a cell where tty-ness and the colour decision disagree or tty_only meets a pipe / NO_COLOR; a style with all three attributes set".into(),
         assumptions: vec!["highlight colours themselves are not asserted (documentation and code disagree)".into(), "ptys from libc::openpty; without them the check exits 2, it does not pass".into()],
         mutants_caught: vec![],
     }
